@@ -196,11 +196,19 @@ class QConv1D(Conv1D, PrunableLayer):
     else:
       quantized_kernel = self.kernel
 
+    padding = self.padding
+    if padding == "causal" and self.data_format == "channels_first":
+      # the backend pads axis 1 for causal convolutions, which is the channel
+      # axis in this data format: pad the time axis here instead.
+      left_pad = self.dilation_rate[0] * (self.kernel_size[0] - 1)
+      inputs = tf.pad(inputs, [[0, 0], [0, 0], [left_pad, 0]])
+      padding = "valid"
+
     outputs = tf.keras.backend.conv1d(
         inputs,
         quantized_kernel,
         strides=self.strides[0],
-        padding=self.padding,
+        padding=padding,
         data_format=self.data_format,
         dilation_rate=self.dilation_rate[0])
 
